@@ -85,12 +85,27 @@ def gen_chronicle(repo):
     # --- append: required keys
     app = find_def(tree, 'append')
     keys = None
-    for n in ast.walk(app):
-        if isinstance(n, ast.List) and n.elts and all(
+
+    def _strs(n):
+        if isinstance(n, (ast.List, ast.Tuple)) and n.elts and all(
             isinstance(e, ast.Constant) and isinstance(e.value, str) for e in n.elts
         ):
-            keys = [e.value for e in n.elts]
-            break
+            return [e.value for e in n.elts]
+        return None
+    consts = {st.targets[0].id: _strs(st.value) for st in tree.body
+              if isinstance(st, ast.Assign) and len(st.targets) == 1 and isinstance(st.targets[0], ast.Name)
+              and _strs(st.value)}
+    for n in ast.walk(app):
+        # the sequence the `all(key in entry for key in <seq>)` test ranges over: a literal, or a module constant
+        if isinstance(n, ast.comprehension):
+            keys = _strs(n.iter) or (consts.get(n.iter.id) if isinstance(n.iter, ast.Name) else None)
+            if keys:
+                break
+    if keys is None:
+        for n in ast.walk(app):
+            if _strs(n):
+                keys = _strs(n)
+                break
     if keys is None:
         raise Untranslatable(f'{CHRON}:append: no literal key list')
     # --- _load: status words and the keep predicate
